@@ -2228,7 +2228,8 @@ impl TextMut for XmlText {
                 }
                 _ => Err(error::DomException::HierarchyRequestErr)?,
             },
-            _ => Err(error::DomException::HierarchyRequestErr)?,
+            // Without a parent there is no sibling to become: the tail is only handed back.
+            None => Ok(XmlText::from(self.data.borrow_mut().split_at(offset))),
         }
     }
 }
@@ -2565,6 +2566,12 @@ impl TextMut for XmlCDataSection {
     fn split_text(&self, offset: usize) -> error::Result<XmlCDataSection> {
         if self.length() < offset {
             return Err(error::DomException::IndexSizeErr)?;
+        }
+
+        if self.data.borrow().parent_item().is_none() {
+            // Without a parent there is no sibling to become: the tail is only handed back.
+            let data2 = self.data.borrow_mut().split_at(offset);
+            return Ok(XmlCDataSection::from(data2));
         }
 
         let v = self.data.borrow().parent()?;
